@@ -480,7 +480,7 @@ func apply(f string, a []Res, mode int) Res {
 			}
 			return dy
 		}
-		if abs(x.V-y.V) <= x.E+y.E {
+		if abs(x.V-y.V) <= S*(x.E+y.E) {
 			return Res{V: dx.V, E: abs(dx.V-dy.V) + dx.E + dy.E, Unstable: true}
 		}
 		pickX := x.V > y.V
@@ -495,7 +495,7 @@ func apply(f string, a []Res, mode int) Res {
 		x, y := a[0], a[1]
 		d := x.V - y.V
 		unstable := false
-		if x.E+y.E > 0 && abs(d) <= x.E+y.E {
+		if x.E+y.E > 0 && abs(d) <= S*(x.E+y.E) {
 			unstable = true
 		}
 		var b bool
@@ -535,6 +535,13 @@ func (t *T) Allowed(env Env) Interval {
 
 // K is the safety factor applied to the first-order error bound.
 const K = 1 << 12
+
+// S is the safety factor for deciding that a discontinuous function (a comparison, a max / min selector) was evaluated
+// too close to its discontinuity for this assignment to decide anything: two sound floating-point evaluations of the
+// arguments may differ by somewhat more than the first-order bound. (Found by a 40-step training trajectory that had
+// converged onto the clipping bound of CE, where the library's and the evaluator's softmax output fell on different
+// sides of 1 - 1e-12.)
+const S = 64
 
 func (iv Interval) Finite() bool {
 	return !math.IsNaN(iv.Lo) && !math.IsNaN(iv.Hi) && !math.IsInf(iv.Lo, 0) && !math.IsInf(iv.Hi, 0) && !math.IsInf(iv.E, 0) && !math.IsNaN(iv.E)
